@@ -714,11 +714,19 @@ def orphan_index(audited, prog):
     return idx
 
 
+def _erase_fields(key):
+    return re.sub(r'\bself\.[A-Za-z_][A-Za-z0-9_]*', 'self.#', key)
+
+
 def audit_bodies(rep, rule, bodies, audited, classes=('assert', 'panic', 'partial', 'alloc', 'unchecked'), list_all=False, known_prefix=None):
     """every site in `bodies` must be structurally discharged or individually audited"""
     used = set()
     seen_n = {}
     orphans = orphan_index(audited, bodies[0].prog) if bodies else {}
+    erased = {}
+    for k in audited:
+        if 'self.' in k:
+            erased.setdefault(_erase_fields(k), []).append(k)
     # (new name, old name) candidates: an audited function that no longer exists and a function of the same module that
     # the table has never heard of
     renames = []
@@ -754,6 +762,11 @@ def audit_bodies(rep, rule, bodies, audited, classes=('assert', 'panic', 'partia
             if tkey not in audited:
                 kp = key.split('|')
                 cand = orphans.get((kp[0], fn_parent(kp[1]), kp[2], '|'.join(kp[3:])), [])
+                if cand:
+                    tkey = cand[0]
+            if tkey not in audited:
+                # a private field of self was renamed: same function, operation and operand shape
+                cand = [k2 for k2 in erased.get(_erase_fields(key), []) if seen_n.get(k2, 0) < ((audited[k2].get('count', 1)) if isinstance(audited[k2], dict) else 1)]
                 if cand:
                     tkey = cand[0]
             if tkey not in audited and renames:
